@@ -1,7 +1,8 @@
 """Self-describing RDMs objects (DESIGN 3.3).
 
 The dissimilarity of RDM `rid` between conditions with ids a != b is the number
-    code(rid, a, b) = 100*rid + 10*min(a,b) + max(a,b)        (ids 0..9)
+    code(rid, a, b) = 100*rid + 10*min(a,b) + max(a,b)        (ids 0..9; unique per pair only there -
+    checks that need uniqueness stay below 10 conditions, larger ids are used for fold structure only)
 and every descriptor is a function of the id it labels.  Hence "the value attached to an RDM and
 an unordered pair of condition labels is the value it had in the source" is a state invariant
 that needs no history: any object derived by structural operations must satisfy verify().
@@ -27,7 +28,7 @@ RDM_DESC = {
 }
 PAT_DESC = {
     'cid': lambda c: int(c),
-    'name': lambda c: 'c%s' % 'hdbfaecgij'[int(c)],   # unique strings, alphabetical != id order
+    'name': lambda c: 'c%s' % 'hdbfaecgijnkpmol'[int(c)],   # unique strings, alphabetical != id order (ids 0..15)
     'cat': lambda c: int(c) % 2,            # duplicates, interleaved: 0,1,0,1
     'pgrp': lambda c: 'g%d' % (int(c) // 2),  # duplicates as strings: g0,g0,g1,g1
     'big': lambda c: 100000 + int(c),        # six-digit ids: distinct values closer than 1e-5 relative
@@ -41,12 +42,15 @@ def _container(values, kind):
 
 
 def build(rids, cids, rdm_desc=('rid', 'grp', 'rname'), pat_desc=('cid', 'name', 'cat', 'pgrp'),
-          container='list', nan_pairs=(), measure='selfdesc', noise=None):
+          container='list', nan_pairs=(), measure='selfdesc', noise=None, zero_pairs=()):
     """RDMs with RDM ids `rids` and condition ids `cids` (both lists of ints 0..9).
-    nan_pairs: iterable of (rid, a, b) entries that are missing (NaN)."""
+    nan_pairs: iterable of (rid, a, b) entries that are missing (NaN).
+    zero_pairs: iterable of (a, b) condition pairs whose dissimilarity is exactly 0.0 in EVERY RDM (two
+    conditions with identical patterns; a categorical model) - a genuine value, not a missing one."""
     from rsatoolbox.rdm import RDMs
     n = len(cids)
     nan_pairs = {(r, min(a, b), max(a, b)) for r, a, b in nan_pairs}
+    zero_pairs = {(min(a, b), max(a, b)) for a, b in zero_pairs}
     vec = []
     for r in rids:
         row = []
@@ -55,6 +59,8 @@ def build(rids, cids, rdm_desc=('rid', 'grp', 'rname'), pat_desc=('cid', 'name',
                 a, b = cids[i], cids[j]
                 if a == b or (r, min(a, b), max(a, b)) in nan_pairs:
                     row.append(np.nan)
+                elif (min(a, b), max(a, b)) in zero_pairs:
+                    row.append(0.0)
                 else:
                     row.append(code(r, a, b))
         vec.append(row)
@@ -83,7 +89,7 @@ def read_ids(obj):
     return rids, cids
 
 
-def verify(obj, nan_pairs=(), check_desc=True, rdm_desc=None, pat_desc=None):
+def verify(obj, nan_pairs=(), check_desc=True, rdm_desc=None, pat_desc=None, zero_pairs=()):
     """list of (kind, message) describing every way `obj` breaks the self-description invariant.
     The object's own rid/cid descriptors say which RDMs/conditions it claims to hold; every
     entry must equal the code of its own labels (NaN exactly for two copies of one condition or
@@ -94,6 +100,7 @@ def verify(obj, nan_pairs=(), check_desc=True, rdm_desc=None, pat_desc=None):
     except Exception as e:
         return [('descriptor-lost', 'rid/cid descriptor missing or unreadable: %r' % (e,))]
     nan_pairs = {(r, min(a, b), max(a, b)) for r, a, b in nan_pairs}
+    zero_pairs = {(min(a, b), max(a, b)) for a, b in zero_pairs}
     n = len(cids)
     d = np.asarray(obj.dissimilarities)
     if obj.n_rdm != len(rids) or obj.n_cond != n or d.shape != (len(rids), n * (n - 1) // 2):
@@ -110,7 +117,7 @@ def verify(obj, nan_pairs=(), check_desc=True, rdm_desc=None, pat_desc=None):
                     if not math.isnan(v):
                         errs.append(('value-not-nan', 'rdm %d pair (%d,%d) should be NaN, is %r' % (r, a, b, v)))
                 else:
-                    want = code(r, a, b)
+                    want = 0.0 if (min(a, b), max(a, b)) in zero_pairs else code(r, a, b)
                     if not (v == want):
                         errs.append(('label-value-association',
                                      'rdm rid=%d pair cid=(%d,%d): value %r, source value %r' % (r, a, b, v, want)))
